@@ -162,6 +162,16 @@ CHECKS = {
              "the exact product.",
         design="DESIGN.md §5 C09",
         note=TRUST + "; known finding: apply() on vectors includes the translation"),
+    "C18": dict(
+        technique="TLA+ relational spec Angle (unit ratios, wrap congruence, magnitude arithmetic, polar/spherical norm, "
+                  "range, quadrant/octant and round-trip relations, Pythagorean exact cases); TLC checks the wrap relation "
+                  "accepts the ideal answer and rejects neighbours on an integer-degree lattice; trace validation of sweeps",
+        text="TLC shows on every integer angle over three revolutions and six intervals that the wrap relation accepts "
+             "lo + ((a - lo) mod period) and rejects answers one period or a degree off; the real Angle, PolarVec and "
+             "SphericalVec operations are swept over many revolutions, intervals, magnitudes and Pythagorean directions in "
+             "all quadrants/octants, and every observation (scaled integers) is judged by TLC.",
+        design="DESIGN.md §5 C18",
+        note=TRUST + "; std atan2 names the Pythagorean angles"),
 }
 
 NOT_YET = "check not built yet in this round (see DESIGN.md §9 for the order of work)"
